@@ -1,10 +1,10 @@
-SPECIFICATION RSpec
+SPECIFICATION RFairSpec
 CONSTANTS
   L = 4
-  FixPred = FALSE
-  FixLeave = FALSE
-  FixWrap = FALSE
-  MaxTry = 2
+  FixPred = TRUE
+  FixLeave = TRUE
+  FixWrap = TRUE
+  MaxTry = 3
   MCLayout <- LayR4
   InitMembers = {1, 3, 4}
   Joiners = {2}
@@ -14,6 +14,7 @@ CONSTANTS
   OpKinds = {}
   MaxMembers = 0
   B = 3
-  FixSelf = FALSE
+  FixSelf = TRUE
 INVARIANTS InvTerminates InvLookupCorrect
+PROPERTY Converges
 CHECK_DEADLOCK FALSE
